@@ -126,9 +126,11 @@ func c08cases(tier string) []c08case {
 }
 
 type world struct {
-	backend  *Backend
-	proxies  [2]http.Handler
-	hostname string
+	preambleFailure  string
+	preambleRequests int
+	backend          *Backend
+	proxies          [2]http.Handler
+	hostname         string
 }
 
 var backendResponse = []byte("HTTP/1.1 200 OK\r\nContent-Length: 2\r\nKeep-Alive: timeout=9\r\nProxy-Authenticate: Basic\r\nX-Backend: one\r\nX-Backend: two\r\nSet-Cookie: a=1\r\nSet-Cookie: b=2\r\nConnection: X-Resp-Hop\r\nX-Resp-Hop: 1\r\nTrailer: X-None\r\n\r\nok")
@@ -145,7 +147,31 @@ func newWorld() *world {
 			f.ServeHTTP(rw, r)
 		})
 	}
+	w.preamble()
 	return w
+}
+
+// preamble: before any case is run, both forwarders serve a few legal but odd requests (no Host at all, empty
+// Host, asterisk form). They must be forwarded without a crash - and, because the same forwarders then serve
+// every enumerated case, anything such a request leaves behind in a forwarder shows up in the cases' oracles.
+func (w *world) preamble() {
+	for pi := range w.proxies {
+		for _, raw := range []string{"GET /pre?x=1 HTTP/1.0\r\n\r\n", "GET /pre HTTP/1.1\r\nHost:\r\n\r\n", "OPTIONS * HTTP/1.1\r\nHost: front.example\r\n\r\n"} {
+			req, err := lib.ParseRequest(raw)
+			if err != nil {
+				continue
+			}
+			req.RemoteAddr = "1.2.3.4:5"
+			w.backend.Drain()
+			w.backend.Play([]step{{stepWrite, backendResponse}})
+			rec := lib.Serve(w.proxies[pi], req)
+			got := w.backend.Received(5 * time.Second)
+			if rec.Panic != nil || got == nil {
+				w.preambleFailure = fmt.Sprintf("%q through forwarder passHost=%v: status %d, panic %v, backend reached: %v", raw, pi == 1, rec.Code, rec.Panic, got != nil)
+			}
+			w.preambleRequests++
+		}
+	}
 }
 
 type wire struct {
@@ -376,11 +402,15 @@ func RunC08(tier string, sh lib.Shard, rep *lib.Report) {
 	rep.Bounds["cases"] = len(cases)
 	rep.Bounds["request_targets"] = len(targets())
 	rep.Bounds["header_cases"] = len(headerCases())
-	rep.Rule = "exhaustive: request targets = all paths of <= 3 segments over 11 segment forms x 6 query forms (x pass-host), and header cases (hop-by-hop alone / named in Connection, end-to-end multi-valued, every subset of upstream-supplied forwarding headers, Connection naming each of them) x 3 targets x Host {plain, with port, IPv6 literal} x peer {IPv4, IPv6, IPv6 zone} x TLS x pass-host; request parsed by http.ReadRequest, real forward.New proxy, raw TCP backend recording the exact bytes; non-trivial = targets with escapes + header cases naming headers in Connection"
+	rep.Rule = "exhaustive: request targets = all paths of <= 3 segments over 11 segment forms x 6 query forms (x pass-host), and header cases (hop-by-hop alone / named in Connection, end-to-end multi-valued, every subset of upstream-supplied forwarding headers, Connection naming each of them) x 3 targets x Host {plain, with port, IPv6 literal} x peer {IPv4, IPv6, IPv6 zone} x TLS x pass-host; request parsed by http.ReadRequest, real forward.New proxy (two long-lived forwarders that first serve Host-less, empty-Host and asterisk-form requests, then every case), raw TCP backend recording the exact bytes; non-trivial = targets with escapes + header cases naming headers in Connection"
 	rep.Assume("net/http's transport may add Accept-Encoding/User-Agent handling of its own; only headers the client sent and the forwarding headers are compared", "Upgrade (protocol switching) is outside the alphabet")
 	rep.Require("targets_with_escapes", "cases_with_connection_named_headers", "hop_by_hop_headers_checked", "end_to_end_headers_checked", "forwarding_header_sets_checked")
 	w := newWorld()
 	defer w.backend.Close()
+	rep.Add("preamble_requests_without_host_or_in_asterisk_form", w.preambleRequests)
+	if w.preambleFailure != "" {
+		rep.Violate("C08:odd-request-not-forwarded", w.preambleFailure, map[string]any{"engine": "enum", "part": "c08", "case": "preamble"})
+	}
 	for i, c := range cases {
 		if !sh.Mine(i) {
 			continue
@@ -400,6 +430,9 @@ func ReplayC08(rp map[string]any) (bool, string) {
 	want, _ := rp["case"].(string)
 	w := newWorld()
 	defer w.backend.Close()
+	if want == "preamble" {
+		return w.preambleFailure != "", "C08:odd-request-not-forwarded :: " + w.preambleFailure
+	}
 	for _, tier := range []string{"quick", "thorough"} {
 		for _, c := range c08cases(tier) {
 			if c.String() == want {
